@@ -304,7 +304,9 @@ func (p *poller) readWriteLoop() {
 										_ = c.closeWithError(err)
 										break
 									}
-									if n < bufLen {
+									// a short read means the socket is drained, but only
+									// for streams: the next datagram may be waiting.
+									if n < bufLen && !c.IsUDP() {
 										break
 									}
 								}
